@@ -26,7 +26,7 @@ Unchanged(ns) == \A n \in ns : (n \in ObsExists) = (n \in exists) /\ ObsContent[
 
 \* the solutions of the WHERE pattern over the FROM graphs (data elements tagged by source index)
 SrcData == UNION {{<<i, t>> : t \in content[e.sources[i]]} : i \in DOMAIN e.sources}
-Sols == SolutionsOver(SrcData, e, "")
+Sols == SolutionsOver(SrcData, e, {})
 
 Verdict ==
     IF ~NoDupListing THEN "duplicate-triple-in-listing"
